@@ -1,6 +1,9 @@
 import WaVerif.Model.C13Spec
 import WaVerif.Model.C13RB
 import WaVerif.Lemmas.C13Spec
+import WaVerif.Lemmas.C13Tree
+import WaVerif.Lemmas.C13Rotate
+import WaVerif.Lemmas.C13Insert
 /-!
 # C13 — property theorems (runtime maps behave as finite maps)
 
@@ -83,6 +86,100 @@ open WaVerif.C13RB
 /-- well-formed store: the decidable invariant the driver monitors (`Model/C13RB.wfReport`) -/
 def WF (s : St) : Prop := wf s = true
 
+
+/-! ### search / Lookup on a store that represents a binary search tree -/
+
+/-- `mapImp.Lookup` (the `search` loop + the comma-ok result) on ANY store whose root represents a
+binary search tree `t` is lookup in `t`'s in-order association list.  `t.height < s.fuel` says the
+loop is given enough fuel (the driver reports `fault` otherwise). -/
+theorem search_correct_of_BST (s : St) (t : RTree) (k : Int)
+    (hr : Rep s s.root t) (hb : BST t) (hf : t.height < s.fuel) :
+    C13RB.lookup s k = C13Spec.lookup k t.toList ∧
+    (∀ p, search s k = some p → (p = 0 ↔ k ∉ keys t.toList)) := by
+  have hs : search s k = some (t.find k) := searchFrom_rep k hr hf
+  have hl : C13RB.lookup s k = C13Spec.lookup k t.toList := by
+    unfold C13RB.lookup
+    rw [hs, ← lookup_eq_spec k hb]
+    have h := find_lookup (s := s) k hr
+    cases e : t.find k with
+    | zero => simp [h.1 e]
+    | succ p => simp only; rw [h.2 (by omega), e]
+  refine ⟨hl, fun p hp => ?_⟩
+  rw [hs] at hp
+  cases hp
+  rw [← C13Spec.lookup_eq_none_iff, ← lookup_eq_spec k hb]
+  have h := find_lookup (s := s) k hr
+  constructor
+  · exact h.1
+  · intro hn
+    apply Classical.byContradiction
+    intro hne
+    rw [h.2 hne] at hn
+    cases hn
+
+/-- the in-order sequence of a BST has no repeated key, so `C13Spec.lookup` on it is membership -/
+theorem bst_inorder_keys_nodup (t : RTree) (hb : BST t) : (keys t.toList).Nodup := bst_keys_nodup hb
+
+/-! ### rotations preserve the in-order sequence -/
+
+/-- `leftRotate x` on a store that represents `x(a, y(b, c))` at `x` (distinct nodes, `x`'s parent
+outside the subtree): afterwards `y` represents `y(x(a, b), c)`, whose in-order key/value and pointer
+sequences are unchanged, and the pointer that led to `x` (root or a child field of `x`'s parent) leads to `y`. -/
+theorem rotate_preserves_inorder (s : St) (a b c : RTree) (x y : Nat) (kx vx ky vy : Int)
+    (hr : Rep s x (.node a x kx vx (.node b y ky vy c)))
+    (hnd : (RTree.node a x kx vx (.node b y ky vy c)).ptrs.Nodup)
+    (hpx : s.parentOf x ∉ (RTree.node a x kx vx (.node b y ky vy c)).ptrs) :
+    Rep (leftRotate s x) y (.node (.node a x kx vx b) y ky vy c) ∧
+    (RTree.node (.node a x kx vx b) y ky vy c).toList = (RTree.node a x kx vx (.node b y ky vy c)).toList ∧
+    (RTree.node (.node a x kx vx b) y ky vy c).ptrs = (RTree.node a x kx vx (.node b y ky vy c)).ptrs ∧
+    (leftRotate s x).root = (if s.parentOf x = 0 then y else s.root) ∧
+    (leftRotate s x).nodes = s.nodes ∧
+    (s.parentOf x ≠ 0 → s.parentOf x < s.heap.size →
+      ((leftRotate s x).nd (s.parentOf x)).left = (if x = (s.nd (s.parentOf x)).left then y else (s.nd (s.parentOf x)).left) ∧
+      ((leftRotate s x).nd (s.parentOf x)).right = (if x = (s.nd (s.parentOf x)).left then (s.nd (s.parentOf x)).right else y)) := by
+  have hrep := leftRotate_rep s a b c x y kx vx ky vy hr hnd hpx
+  obtain ⟨_, hx0, hxs, hkx, hvx, ha, hyr⟩ := hr
+  obtain ⟨hy, hy0, hys, hky, hvy, hb, hc⟩ := hyr
+  simp only [RTree.ptrs, List.nodup_append, List.nodup_cons, List.mem_append, List.mem_cons, not_or] at hnd hpx
+  obtain ⟨hna, ⟨⟨hxb, hxy', hxc⟩, hnb, ⟨hyc, hnc⟩, hbc⟩, hax⟩ := hnd
+  obtain ⟨hpa, hpxx, hpb, hpy, hpc⟩ := hpx
+  have hxy : x ≠ (s.nd x).right := by rw [hy]; exact hxy'
+  have hbx : x ≠ (s.nd (s.nd x).right).left := by
+    rcases rep_root_zero_or_mem hb with e | e
+    · rw [e]; exact hx0
+    · intro e'; rw [← e'] at e; exact hxb e
+  refine ⟨hrep, by simp [RTree.toList], by simp [RTree.ptrs], ?_, leftRotate_nodes s x, fun hp0 hps => ?_⟩
+  · rw [leftRotate_root s x hy0 hxy hbx, hy]
+  · have := leftRotate_at_parent s x hy0 hxy hbx hp0 hps hpxx (by rw [hy]; exact hpy)
+    rw [hy] at this
+    exact this
+
+/-- mirror image: `rightRotate x` on `x(y(a, b), c)` yields `y(a, x(b, c))` -/
+theorem rotate_right_preserves_inorder (s : St) (a b c : RTree) (x y : Nat) (kx vx ky vy : Int)
+    (hr : Rep s x (.node (.node a y ky vy b) x kx vx c))
+    (hnd : (RTree.node (.node a y ky vy b) x kx vx c).ptrs.Nodup)
+    (hpx : s.parentOf x ∉ (RTree.node (.node a y ky vy b) x kx vx c).ptrs) :
+    Rep (rightRotate s x) y (.node a y ky vy (.node b x kx vx c)) ∧
+    (RTree.node a y ky vy (.node b x kx vx c)).toList = (RTree.node (.node a y ky vy b) x kx vx c).toList ∧
+    (RTree.node a y ky vy (.node b x kx vx c)).ptrs = (RTree.node (.node a y ky vy b) x kx vx c).ptrs ∧
+    (rightRotate s x).root = (if s.parentOf x = 0 then y else s.root) ∧
+    (rightRotate s x).nodes = s.nodes := by
+  have hrep := rightRotate_rep s a b c x y kx vx ky vy hr hnd hpx
+  obtain ⟨_, hx0, hxs, hkx, hvx, hyr, hc⟩ := hr
+  obtain ⟨hy, hy0, hys, hky, hvy, ha, hb⟩ := hyr
+  simp only [RTree.ptrs, List.nodup_append, List.nodup_cons, List.mem_append, List.mem_cons] at hnd
+  obtain ⟨⟨hna, ⟨hyb, hnb⟩, hab⟩, ⟨hxc, hnc⟩, hlx⟩ := hnd
+  have hxy' : x ≠ y := fun e => hlx y (by simp) x (by simp) e.symm
+  have hxy : x ≠ (s.nd x).left := by rw [hy]; exact hxy'
+  have hbx : x ≠ (s.nd (s.nd x).left).right := by
+    rcases rep_root_zero_or_mem hb with e | e
+    · rw [e]; exact hx0
+    · intro e'; rw [← e'] at e; exact hlx x (by simp [e]) x (by simp) rfl
+  refine ⟨hrep, by simp [RTree.toList], by simp [RTree.ptrs], ?_, rightRotate_nodes s x⟩
+  rw [rightRotate_root s x hy0 hxy hbx, hy]
+
+/-! ### Delete -/
+
 /-- FULL-STRENGTH refinement statement for `Delete`: on every well-formed store, `Delete` yields a
 well-formed store whose slot list is (a permutation of) the spec's `delete` of the slot list and
 whose lookups are those of the spec. -/
@@ -95,6 +192,62 @@ def DeleteRefinesSpec (fixed : Bool) : Prop :=
 /-- the witness history: keys 1 … 10 (values 10 … 100), then `delete(m, 4)`; node 4 has two children -/
 def witnessSets : List (Op Int Int) :=
   (List.range 10).map fun i => Op.set (Int.ofNat (i + 1)) (Int.ofNat ((i + 1) * 10))
+
+/-- the tree the witness store represents before the delete -/
+def witnessTree : RTree :=
+  .node (.node (.node .leaf 1 1 10 .leaf) 2 2 20 (.node .leaf 3 3 30 .leaf)) 4 4 40
+    (.node (.node .leaf 5 5 50 .leaf) 6 6 60
+      (.node (.node .leaf 7 7 70 .leaf) 8 8 80 (.node .leaf 9 9 90 (.node .leaf 10 10 100 .leaf))))
+
+/-- the hypotheses of `search_correct_of_BST` and `rotate_preserves_inorder` are satisfiable: the
+witness store represents `witnessTree` at its root (node 4, whose right child is node 6 and whose parent is NIL) -/
+example : Rep (C13RB.run false witnessSets) (C13RB.run false witnessSets).root witnessTree ∧
+    (C13RB.run false witnessSets).root = 4 ∧ (C13RB.run false witnessSets).parentOf 4 = 0 ∧
+    witnessTree.ptrs.Nodup ∧ witnessTree.height < (C13RB.run false witnessSets).fuel := by decide
+
+
+/-! ### the insert path (allocation, descent loop, linking — everything before `insertFixup`) -/
+
+/-- `Update` of a NEW key on a store whose root represents a BST `t` with pairwise distinct nodes:
+the allocation appends the slot, the descent loop of `insert` ends (`.at y`, enough fuel), and after
+the linking step the root represents the BST insertion `t.ins k v z` of the new node `z` — again a BST
+with distinct nodes, whose in-order association list has exactly the lookups of a finite-map update.
+(`insertFixup` then only recolours and rotates; rotations preserve the in-order list by
+`rotate_preserves_inorder`; its loop as a whole is covered by the monitored invariants, not proved.) -/
+theorem insert_path_refines_spec (s : St) (t : RTree) (k v : Int)
+    (hr : Rep s s.root t) (hnd : t.ptrs.Nodup) (hb : BST t) (hf : t.height < s.fuel)
+    (hk : k ∉ keys t.toList) (h0 : 0 < s.heap.size) :
+    ∃ y, insDescend (alloc s k v).fuel (alloc s k v) ((alloc s k v).nd s.heap.size).key (alloc s k v).root 0 = .at y ∧
+      Rep (attach (alloc s k v) s.heap.size y) (attach (alloc s k v) s.heap.size y).root (t.ins k v s.heap.size) ∧
+      BST (t.ins k v s.heap.size) ∧ (t.ins k v s.heap.size).ptrs.Nodup ∧
+      (attach (alloc s k v) s.heap.size y).nodes = s.nodes.push s.heap.size ∧
+      (∀ q, C13Spec.lookup q (t.ins k v s.heap.size).toList = if q = k then some v else C13Spec.lookup q t.toList) := by
+  have hfr := alloc_fresh s k v h0
+  have hr1 : Rep (alloc s k v) (alloc s k v).root t := by rw [alloc_root]; exact alloc_rep k v hr
+  have hzt : s.heap.size ∉ t.ptrs := fun hm => Nat.lt_irrefl _ (rep_ptrs_ne_zero hr _ hm).2
+  have hf1 : t.height < (alloc s k v).fuel := by
+    unfold St.fuel at *; rw [alloc_size]; omega
+  refine ⟨t.attachPtr k 0, ?_, ?_, bst_ins k v _ t hb hk, nodup_ptrs_ins k v _ t hnd hzt, ?_, lookup_ins k v _ t hb hk⟩
+  · rw [hfr.key]; exact insDescend_rep k t _ 0 _ hr1 hf1 hk
+  · cases t with
+    | leaf =>
+      have ho := attach_other (alloc s k v) s.heap.size 0 s.heap.size hfr.ne0
+      simp only [RTree.attachPtr, RTree.ins]
+      have hroot : (attach (alloc s k v) s.heap.size 0).root = s.heap.size := by simp [attach]
+      rw [hroot]
+      exact ⟨rfl, hfr.ne0, by rw [attach_size]; exact hfr.inb, by rw [attach_key]; exact hfr.key,
+        by rw [attach_val]; exact hfr.val, by rw [ho.1]; exact hfr.left, by rw [ho.2]; exact hfr.right⟩
+    | node l p k' v' r =>
+      have hy := RTree.attachPtr_mem k (.node l p k' v' r) 0 (by simp)
+      have hy0 : (RTree.node l p k' v' r).attachPtr k 0 ≠ 0 := (rep_ptrs_ne_zero hr _ hy).1
+      have hroot : (attach (alloc s k v) s.heap.size ((RTree.node l p k' v' r).attachPtr k 0)).root = (alloc s k v).root := by
+        rw [attach_ne_zero _ _ _ hy0]; split <;> simp
+      rw [hroot]
+      exact attach_rep hfr _ _ 0 (by simp) hr1 hnd hzt hk
+  · rw [attach_nodes, alloc_nodes]
+
+/-- hypotheses satisfiable: the witness store and key 11 -/
+example : (11 : Int) ∉ keys witnessTree.toList ∧ 0 < (C13RB.run false witnessSets).heap.size := by decide
 
 theorem witness_wf : WF (C13RB.run false witnessSets) := by unfold WF; decide
 
